@@ -176,6 +176,9 @@ def run(ctx, crate):
                       not bad and n > 0 and w.acc[0] != "phi", expected="entry / or_insert / push / append / extend with the accumulator as receiver",
                       found=bad or "%d uses, all grow-only" % n,
                       example="dir/A.sol listed before dir/sub/: the merge of sub's findings must leave A.sol's in place"))
+    # whether a category's findings are rendered does not depend on the other categories' findings (C12's category guards)
+    obs.append(depend.inherited(ctx, crate, "R15.parts", "report::generation::generate_report", "a category's part depends on that category's findings only (C12's obligations)",
+                                "C12", lambda o: o.rule == "R12.category", example="vulnerabilities selected together with optimizations = []"))
     # a file's entries survive rendering whatever other files are reported: the generators render every (file, lines) pair they are handed (C11's loop obligations)
     for gen in ("report::optimization_report::generate_optimization_report", "report::vulnerability_report::generate_vulnerability_report", "report::qa_report::generate_qa_report"):
         obs.append(depend.inherited(ctx, crate, "R15.render", gen, "every (file, lines) pair is rendered, whatever other files are listed with it (C11's loop obligations)",
